@@ -73,6 +73,12 @@ func (w *FindRules) Do(ctx *Context, loc *Location) {
 		embed, given := w.Event["evaluate!"]
 		if given {
 			embedded = true
+			// An embedded rule isn't looked up, so the gate that
+			// the rule searches have is needed here.
+			if !loc.Enabled(ctx) {
+				w.Disposition = &Condition{"Location is disabled.", "unknown"}
+				return
+			}
 			m, ok := embed.(map[string]interface{})
 			if !ok {
 				err := fmt.Errorf("%#v isn't a rule", embed)
